@@ -268,6 +268,8 @@ def hops_cases():
         if h <= 255:
             S.append(('confed_around', [(3, 64)] + ([(2, h)] if h else []) + [(4, 255)]))
             S.append(('empty_segments', [(2, 0)] + ([(2, h)] if h else []) + [(3, 0)]))
+            # segment types the walk must skip: confederation ones and values outside 1-4
+            S.append(('unknown_types', [(5, 2), (0, 1)] + ([(2, h)] if h else []) + [(255, 3)]))
         return S
     k = 0
     for h in (0, 1, 2, 62, 63, 64, 65, 126, 127, 128, 129, 254, 255, 256, 257, 509, 510):
